@@ -331,6 +331,9 @@ class Climate(Device):
             offset, self.setpoint_shift_min, self.setpoint_shift_max
         )
         base_temperature = self.base_temperature
+        if self.target_temperature.writable and base_temperature is not None:
+            # raise ConversionError for an invalid target temperature before anything is sent
+            self.target_temperature.to_knx(base_temperature + validated_offset)
         self._setpoint_shift.set(validated_offset)
         # broadcast new target temperature and set internally
         if self.target_temperature.writable and base_temperature is not None:
